@@ -21,6 +21,52 @@ BIG = 2 ** 200
 NEAR = 2 ** 255      # 2**255 + k == 2**255 as a double for every k < 2**202
 
 
+def impl_nums(spec):
+    """The sample_num objects handed to the implementation (ints, floats, numpy integers); spec['nums'] are their exact
+    integer keys (value * spec['scale']), which is what the model and the oracles order by."""
+    return spec.get("impl_nums", spec["nums"])
+
+
+def zkey(spec, v):
+    """Exact integer key of a sample number / threshold read back from the implementation."""
+    if v is None or spec is None or "scale" not in spec:
+        return v
+    f = F(int(v)) if isinstance(v, (int, np.integer)) else F(v)
+    k = f * spec["scale"]
+    return int(k) if k.denominator == 1 else v
+
+
+def mixed_type_pool(rng, n):
+    """n distinct numbers of mixed Python types that numpy would coerce to float64 if asked to put them into one array:
+    ints just above 2**53 / 2**63 / 2**64 (consecutive), float-valued numbers, negative ints; in float-free worlds some ints
+    arrive as np.int64 / np.uint64.  All are legal keys for sorted(); every pairwise comparison Python makes is exact
+    (checked below; otherwise plain Python ints are used)."""
+    base = rng.choice([2 ** 53, 2 ** 63, 2 ** 64 - 2, 2 ** 62])
+    ints = [base + k for k in range(n + 2)] + [-1, -7, -(2 ** 63), 3, 2 ** 53 - 1]
+    floats = [0.5, 1e18, float(2 ** 60), 1.5, -2.5, float(2 ** 53), 7.0]
+    with_floats = rng.random() < 0.6
+    pool = ints[:n + 2] + rng.sample(ints[n + 2:], 2) + (rng.sample(floats, 3) if with_floats else [])
+    vals, seen = [], set()
+    for v in [base, base + 1] + rng.sample(pool, len(pool)):
+        if F(v) not in seen and len(vals) < n:
+            seen.add(F(v))
+            vals.append(v)
+    if not with_floats:
+        wrapped = []
+        for v in vals:
+            r = rng.random()
+            if r < 0.35 and -(2 ** 63) <= v < 2 ** 63:
+                wrapped.append(np.int64(v))
+            elif r < 0.6 and 0 <= v < 2 ** 64:
+                wrapped.append(np.uint64(v))
+            else:
+                wrapped.append(v)
+        exact = all((a < b) == (F(int(a)) < F(int(b))) and (a <= b) == (F(int(a)) <= F(int(b))) for a in wrapped for b in wrapped)
+        if exact:
+            vals = wrapped
+    return vals
+
+
 def A():
     import shangrla.core.Audit as Au
     return Au
@@ -91,7 +137,7 @@ def mk_cvrs(spec, votes_rng):
     """Fresh CVR objects for a card-list spec; the vote contents are drawn from votes_rng (styles are fixed)."""
     Au = A()
     cvrs = []
-    for i, (nm, st) in enumerate(zip(spec["nums"], spec["styles"])):
+    for i, (nm, st) in enumerate(zip(impl_nums(spec), spec["styles"])):
         ph = spec["phantom"][i]
         votes = {}
         for c in st:
@@ -146,6 +192,7 @@ def build_cvrs(spec, votes_rng, prelude=None, pre_seed=0):
     pre = random.Random(pre_seed)
     n = len(spec["nums"])
     other = dict(spec)
+    other.pop("impl_nums", None)
     other["nums"] = pre.sample(range(1, 10 * n + 10), n)
     if prelude in ("same_list", "reseed"):
         cvrs = mk_cvrs(other, votes_rng)
@@ -155,7 +202,7 @@ def build_cvrs(spec, votes_rng, prelude=None, pre_seed=0):
         if prelude == "reseed":
             Au.CVR.assign_sample_nums(cvrs, SHA256(spec["seed"]))
         else:
-            for c, nm in zip(cvrs, spec["nums"]):
+            for c, nm in zip(cvrs, impl_nums(spec)):
                 c.sample_num = nm
         return cvrs
     first = mk_cvrs(other, pre)
@@ -179,6 +226,8 @@ def add_prelude(rng, h, spec, share=0.4, kinds=PRELUDES):
             else:
                 spec["seed"] = rng.randint(0, 10 ** 12)
                 spec["nums"] = sha_stream(spec["seed"], len(spec["nums"]))
+                spec.pop("impl_nums", None)
+                spec.pop("scale", None)
     if rng.random() < 0.25:
         spec["via_dict"] = True
 
@@ -260,6 +309,7 @@ def gen_spec(rng, n=None, m=None, ties=False, nums=None, styles=None, plain=Fals
     m = m if m is not None else rng.randint(1, 4)
     n = n if n is not None else rng.randint(3, 12)
     extra = 0 if plain else rng.choice([0, 0, 1, 2])            # contests on the cards that are not under audit
+    mixed = None
     if styles is None:
         dens = rng.choice([0.3, 0.5, 0.7, 0.9])
         styles = []
@@ -271,9 +321,14 @@ def gen_spec(rng, n=None, m=None, ties=False, nums=None, styles=None, plain=Fals
         if ties:
             nums = [rng.randint(1, max(2, n // 2)) for _ in range(n)]
         else:
-            mode = rng.choice(["small", "small", "small", "small", "big", "near", "near_rev", "mixed"])
+            mode = rng.choice(["small", "small", "small", "small", "big", "near", "near_rev", "mixed", "types"])
             vals = rng.sample(range(0, 4 * n + 4), n)
-            if mode == "small":
+            if mode == "types" and not plain and n:
+                mixed = mixed_type_pool(rng, n)
+                if rng.random() < 0.4:
+                    mixed.sort(key=lambda v: F(int(v)) if isinstance(v, (int, np.integer)) else F(v), reverse=True)
+                nums = [int(F(int(v) if isinstance(v, (int, np.integer)) else v) * 2) for v in mixed]
+            elif mode == "small" or mode == "types":
                 nums = vals
             elif mode == "big":
                 nums = [v * BIG + rng.randint(0, 9) for v in vals]
@@ -305,6 +360,8 @@ def gen_spec(rng, n=None, m=None, ties=False, nums=None, styles=None, plain=Fals
         "thr0": [None] * m, "proved0": [False] * m,
     }
     spec["mvr_agree"] = rng.choice([0.5, 0.9, 0.97, 1.0])
+    if mixed is not None:
+        spec["impl_nums"], spec["scale"] = mixed, 2
     return spec
 
 
@@ -345,12 +402,12 @@ def ref_selection(spec, sizes):
 
 
 # ---------------------------------------------------------------- 1. single calls of consistent_sampling
-def run_query(cvrs, contests, sizes, prev, prev_sizes=None):
+def run_query(cvrs, contests, sizes, prev, prev_sizes=None, spec=None):
     Au = A()
     keys = list(contests)
     for key, k in zip(keys, sizes):
         contests[key].sample_size = k
-    thr0 = [contests[key].sample_threshold for key in keys]
+    thr0 = [zkey(spec, contests[key].sample_threshold) for key in keys]
     flags0 = [bool(c.sampled) for c in cvrs]
     try:
         got = Au.CVR.consistent_sampling(cvrs, contests, None if prev is None else list(prev))
@@ -359,7 +416,7 @@ def run_query(cvrs, contests, sizes, prev, prev_sizes=None):
         sel = ("err", exn_name(e))
     return {"sizes": list(sizes), "thr0": thr0, "prev": None if prev is None else list(prev), "flags0": flags0,
             "prev_sizes": None if prev_sizes is None else list(prev_sizes),
-            "sel": sel, "thr1": [contests[key].sample_threshold for key in keys],
+            "sel": sel, "thr1": [zkey(spec, contests[key].sample_threshold) for key in keys],
             "flags1": [bool(c.sampled) for c in cvrs]}
 
 
@@ -376,7 +433,8 @@ def cs_case_lit(case):
 
 def cs_case_json(case):
     s = case["spec"]
-    return {"nums": [str(x) for x in s["nums"]], "styles": s["styles"], "queries": C.jsonable(case["queries"]), "tag": case.get("tag"),
+    return {"nums": [str(x) for x in s["nums"]], "sample_num_objects": [repr(v) for v in impl_nums(s)] if "impl_nums" in s else None,
+            "styles": s["styles"], "queries": C.jsonable(case["queries"]), "tag": case.get("tag"),
             "before_these_calls": case.get("prelude"), "pre_seed": case.get("pre_seed"), "seed": s.get("seed"),
             "built_by_from_dict": bool(s.get("via_dict"))}
 
@@ -438,6 +496,16 @@ def exhaustive_cases(rng, nmax, all_orders_upto, cont_all=False, stats=None):
                 if rng.random() < 0.08:
                     nums = [NEAR + v for v in nums]       # same order, but indistinguishable as doubles
                 spec = gen_spec(rng, n=n, m=2, nums=nums, styles=styles, plain=True)
+                if n >= 2 and rng.random() < 0.04:     # the same ranks, carried by numbers of mixed types
+                    pool = sorted(mixed_type_pool(rng, n), key=lambda v: F(int(v)) if isinstance(v, (int, np.integer)) else F(v))
+                    ranks = sorted(range(n), key=lambda i: nums[i])
+                    mixed = [None] * n
+                    for r_, i_ in enumerate(ranks):
+                        mixed[i_] = pool[r_]
+                    spec["impl_nums"], spec["scale"] = mixed, 2
+                    spec["nums"] = [int(F(int(v) if isinstance(v, (int, np.integer)) else v) * 2) for v in mixed]
+                    if stats is not None:
+                        stats["mixed-type sample numbers"] = stats.get("mixed-type sample numbers", 0) + 1
                 hp = {}
                 add_prelude(rng, hp, spec, share=0.12, kinds=("same_list", "new_list", "refill"))
                 cvrs = build_cvrs(spec, rng, hp["prelude"], hp["pre_seed"])
@@ -446,14 +514,14 @@ def exhaustive_cases(rng, nmax, all_orders_upto, cont_all=False, stats=None):
                 qs = []
                 fresh = {}
                 for sizes in itertools.product(range(cnt[0] + 1), range(cnt[1] + 1)):
-                    q = run_query(cvrs, contests, sizes, None)
+                    q = run_query(cvrs, contests, sizes, None, spec=spec)
                     fresh[sizes] = q["sel"][1] if q["sel"][0] == "ok" else None
                     qs.append(q)
                 for sizes in itertools.product(range(cnt[0] + 1), range(cnt[1] + 1)):
                     subs = [s for s in itertools.product(range(sizes[0] + 1), range(sizes[1] + 1))]
                     for sub in (subs if cont_all else [rng.choice(subs)]):
                         if fresh.get(sub) is not None:
-                            qs.append(run_query(cvrs, contests, sizes, fresh[sub], prev_sizes=sub))
+                            qs.append(run_query(cvrs, contests, sizes, fresh[sub], prev_sizes=sub, spec=spec))
                 cases.append({"spec": spec, "queries": qs, "tag": "exhaustive", "prelude": hp["prelude"], "pre_seed": hp["pre_seed"]})
                 if stats is not None and hp["prelude"]:
                     stats["list used before: " + hp["prelude"]] = stats.get("list used before: " + hp["prelude"], 0) + 1
@@ -491,7 +559,7 @@ def random_cs_cases(rng, ncases, stats=None):
                 prev, ps = prev_sel, prev_sizes                               # the previously returned list itself
             else:
                 prev = [rng.randint(0, spec["n"] + 2) for _ in range(rng.randint(0, 5))]
-            q = run_query(cvrs, contests, sizes, prev, prev_sizes=ps)
+            q = run_query(cvrs, contests, sizes, prev, prev_sizes=ps, spec=spec)
             if q["sel"][0] == "ok":
                 prev_sel = q["sel"][1]
                 prev_sizes = sizes if prev is None else None                  # only fresh draws are "genuine" here
@@ -500,6 +568,8 @@ def random_cs_cases(rng, ncases, stats=None):
             qs.append(q)
         if stats is not None and ties:
             stats["tied sample numbers"] = stats.get("tied sample numbers", 0) + 1
+        if stats is not None and "impl_nums" in spec:
+            stats["mixed-type sample numbers"] = stats.get("mixed-type sample numbers", 0) + 1
         cases.append({"spec": spec, "queries": qs, "tag": "random", "prelude": hp["prelude"], "pre_seed": hp["pre_seed"]})
         if stats is not None and hp["prelude"]:
             stats["list used before: " + hp["prelude"]] = stats.get("list used before: " + hp["prelude"], 0) + 1
@@ -593,7 +663,7 @@ def run_history(hist, modes=None, votes_seed=0, mvr_seed=0, shuffle_seed=0, test
         except Exception as e:  # noqa
             rec["sel"] = ("err", exn_name(e))
             got = None
-        rec["thr"] = [contests[k].sample_threshold for k in keys]
+        rec["thr"] = [zkey(spec, contests[k].sample_threshold) for k in keys]
         rec["flags"] = [bool(c.sampled) for c in cvrs]
         if got is None:
             rec.update({"mshuf": [], "cshuf": [], "prep": ("ok", ([], [])), "poll": ("ok", []), "data": [], "pdone": False,
@@ -672,12 +742,13 @@ def hist_case_lit(case):
     cfg = C.listlit([f"({TYMAP.get(ty, 'OtherType')}, {C.blit(us)})" for ty, us in s["cfg"]])
     return (f"mkhc {cards_lit(s['nums'], s['styles'])} {zl(range(s['n']))} {zl(range(s['m']))} {cfg} "
             f"{C.listlit([ql(t) for t in out['f']])} {C.listlit([ql(t) for t in out['g']])} {ql(s['risk'])} "
-            f"{thrl(s['thr0'])} {bl(s['proved0'])} {C.listlit([hround_lit(r) for r in out['rounds']])}")
+            f"{thrl([zkey(s, t) for t in s['thr0']])} {bl(s['proved0'])} {C.listlit([hround_lit(r) for r in out['rounds']])}")
 
 
 def hist_case_json(case):
     s = case["hist"]["spec"]
-    return {"nums": [str(x) for x in s["nums"]], "styles": s["styles"], "phantom": s["phantom"], "cfg": s["cfg"],
+    return {"nums": [str(x) for x in s["nums"]], "sample_num_objects": [repr(v) for v in impl_nums(s)] if "impl_nums" in s else None,
+            "styles": s["styles"], "phantom": s["phantom"], "cfg": s["cfg"],
             "sizes": case["hist"]["sizes"], "modes": case["hist"]["modes"], "tests": s["tests"],
             "before_this_audit": case["hist"].get("prelude"), "pre_seed": case["hist"].get("pre_seed"),
             "seed": s.get("seed"), "built_by_from_dict": bool(s.get("via_dict")),
@@ -763,6 +834,8 @@ def m2d_cases(rng, ncases):
     cases = []
     for _ in range(ncases):
         spec = spec_in_dict_order(gen_spec(rng, n=rng.randint(0, 7), m=rng.randint(1, 3), ties=rng.random() < 0.3))
+        spec.pop("impl_nums", None)
+        spec.pop("scale", None)
         j = rng.randrange(spec["m"])
         ty = rng.choice(["CARD_COMPARISON", "CARD_COMPARISON", "ONEAUDIT", "POLLING", "BATCH"])
         us = rng.random() < 0.75
@@ -890,6 +963,8 @@ def corr_histories(ctx, res, stats, n_valid, n_invalid):
         h["seeds"] = seeds
         out = run_history(h, votes_seed=seeds[0], mvr_seed=seeds[1], shuffle_seed=seeds[2])
         cases.append({"hist": h, "out": out})
+        if "impl_nums" in h["spec"]:
+            stats["histories with mixed-type sample numbers"] = stats.get("histories with mixed-type sample numbers", 0) + 1
         if h.get("prelude"):
             stats["history after earlier use: " + h["prelude"]] = stats.get("history after earlier use: " + h["prelude"], 0) + 1
         for r in out["rounds"]:
